@@ -23,7 +23,7 @@ ASSUMPTIONS = ['closed feature intervals [start,end]; a range query [a,b] with a
                'strand convention for FeatureAnnotatedMolecule as documented (None unstranded, False same strand as R1, True other strand); SingleEndTranscriptFragment only checked unstranded']
 MIN_NONTRIVIAL = {'quick': 3000, 'thorough': 1000000}
 REQUIRED_MONITORS = ['ret:findFeaturesAt', 'ret:findFeaturesBetween', 'ret:findFeaturesAtPysamAlign0', 'ret:findFeaturesAtPysamAlign1',
-                     'ret:molecule.annotate0', 'ret:molecule.annotate1', 'ret:fragment.annotate', 'history:second_round_queries', 'universe:near_or_beyond_2^31', 'history:queried_without_explicit_sort', 'history:round_adding_to_one_contig_only', 'reads:aligned_bases_spelled_eq_x_only', 'ret:findFeaturesAt_on_second_container', 'features:same_interval_name_strand_other_data']
+                     'ret:molecule.annotate0', 'ret:molecule.annotate1', 'ret:fragment.annotate', 'history:second_round_queries', 'universe:near_or_beyond_2^31', 'history:queried_without_explicit_sort', 'history:round_adding_to_one_contig_only', 'reads:aligned_bases_spelled_eq_x_only', 'ret:findFeaturesAt_on_second_container', 'features:same_interval_name_strand_other_data', 'reads:same_span_other_blocks']
 
 
 def gen_cases(tier, seed):
@@ -216,6 +216,7 @@ def run_case(case):
                 acc.sigs.add(f"{case['i']}/{rd}/r/{c}/{a}/{b}/{st}")
         earlier_range_queries = r.sample(rq, 40)
         # ---- reads
+        prev_read = [None]
         for j in range(25 if big < 2 ** 31 else 0):     # an alignment position is a 32 bit number
             c = r.choice(contigs)
             a = pysam.AlignedSegment(header)
@@ -223,6 +224,15 @@ def run_case(case):
             a.reference_id = contigs.index(c)
             a.reference_start = r.randint(0, U) + big
             a.cigarstring = random_cigar(r, 8 if dense else 200)
+            if j % 2 == 1 and prev_read[0] is not None:
+                # a second read with exactly the span of the previous one but without its gaps (an unspliced read next to a spliced one): it is
+                # annotated by its own aligned bases
+                c, st_, ln_ = prev_read[0]
+                a.reference_id = contigs.index(c)
+                a.reference_start = st_
+                a.cigarstring = f'{ln_}M'
+                acc.count('reads:same_span_other_blocks')
+            prev_read[0] = (c, a.reference_start, a.reference_length)
             ql = a.infer_query_length()
             a.query_sequence = 'A' * ql
             a.query_qualities = [30] * ql
